@@ -6,10 +6,10 @@ from lib import Result, model_call, run_sharded, e_fmt, e_list, e_dy, Reader, RM
 import c11
 
 RULE = ('n_word in {64,65,66,72,96,127,128,129,200,256}, n_frac in {0,1,n_word/2,n_word-1,n_word}, both signednesses and overflow modes; codes at and just beyond both bounds, multiples of the modulus, '
-        'random codes of up to 4x the word length; supplied as a Python integer code (raw=True), as a Python integer value, and as binary / hex strings in raw mode, by constructor, call and set_val; observed: val, overflow / underflow '
+        'random codes of up to 4x the word length; lists of 2..4 such integers mixing in-range and out-of-range elements; supplied as a Python integer code (raw=True), as a Python integer value, and as binary / hex strings in raw mode, by constructor, call and set_val; observed: val, overflow / underflow '
         'flags, bin(), hex(), ~ & | ^; the extended_prec indicator for n_word 8..256 through explicit sizes, dtype=, like=, best-size and bitwise routes. Expected values from the extracted Spec (saturate / wrap of the exact integer). '
         'Non-trivial = the code is outside the range or needs more than 64 bits; distinct by full input.')
-ASSUMPTIONS = ['lists of wide integers are compared only for scalar inputs here (arrays of 64-bit codes are covered by C11)']
+ASSUMPTIONS = ['rendering and bitwise operators are compared for scalar inputs; arrays (lists of 2..4 Python integers, in and out of range mixed) are compared for stored codes and flags']
 WORDS = [64, 65, 66, 72, 96, 127, 128, 129, 200, 256]
 
 def gen(rng):
@@ -71,6 +71,48 @@ def run_cases(cases, res):
             if obs['bit'][k2] != wc:
                 res.fail(c, 'C18: bitwise operator %s is not exact at this width' % k2, expected=wc, got=obs['bit'][k2]); break
 
+def gen_array(rng):
+    base = gen(rng); s, n, nf = base['f']; lo, hi = S.fmt_bounds(s, n); M = 1 << n
+    cs = [base['c']]
+    for _ in range(rng.randint(1, 3)):
+        k = rng.random()
+        if k < 0.4: cs.append(rng.randint(lo, hi))
+        elif k < 0.6: cs.append(rng.choice([lo, hi, lo - 1, hi + 1, 0, -1, 5]))
+        else: cs.append(rng.choice([1, -1]) * rng.getrandbits(rng.randint(1, 2 * n)))
+    rng.shuffle(cs)
+    return {'f': base['f'], 'cs': cs, 'o': base['o'], 'r': base['r'], 'kind': rng.choice(['raw', 'value']), 'route': base['route']}
+
+def run_array_cases(cases, res):
+    fx = lib.impl(); import numpy as np
+    pend = []; reqs = []
+    for c in cases:
+        s, n, nf = c['f']; lo, hi = S.fmt_bounds(s, n)
+        kw = dict(rounding=c['r'], overflow=c['o']); raw = c['kind'] == 'raw'; val = list(c['cs'])
+        try:
+            if c['route'] == 'ctor': x = fx.Fxp(val, s, n, nf, raw=raw, **kw)
+            else:
+                x = fx.Fxp(None, s, n, nf, **kw)
+                if c['route'] == 'set_val' or raw: x.set_val(val, raw=raw)
+                else: x(val)
+            obs = {'codes': lib.codes_of(x), 'st': lib.status3(x)[:2], 'extp': x.status.get('extended_prec')}
+        except Exception as e:
+            res.fail(c, 'C18: storing a list of wide integers raised %s' % lib.exc_name(e), got=str(e)[:300]); continue
+        scaled = [v if raw else v * (1 << nf) for v in c['cs']]
+        pend.append((c, obs, scaled))
+        reqs.append([4] + e_fmt(s, n, 0) + [0, OMODES.index(c['o'])] + e_list([Fraction(v) for v in scaled], e_dy))
+    outs = model_call(reqs)
+    for (c, obs, scaled), out in zip(pend, outs):
+        s, n, nf = c['f']; lo, hi = S.fmt_bounds(s, n)
+        rd = Reader(out); want = rd.lst(rd.z); so, su = rd.b(), rd.b()
+        res.count('WA:wide-array-stores', key=repr(c), nontrivial=any(not (lo <= v <= hi) for v in scaled) and any(lo <= v <= hi and abs(v) >= 2**64 for v in scaled), n=len(scaled))
+        res.sample(c)
+        if obs['codes'] != want:
+            res.fail(c, 'C18: a list of wide integers is not stored bit-exactly / saturated / wrapped element-wise', expected=want, got=obs['codes']); continue
+        if obs['st'] != (so, su):
+            res.fail(c, 'C18: overflow/underflow flags of a wide array store are not exact', expected=(so, su), got=obs['st']); continue
+        if obs['extp'] is not True:
+            res.fail(c, 'C18: the extended-precision indicator is not set for n_word >= 64', expected=True, got=obs['extp']); continue
+
 def indicator(rng, res, n_cases):
     fx = lib.impl()
     for _ in range(n_cases):
@@ -93,6 +135,7 @@ def indicator(rng, res, n_cases):
 def shard(shard, nshards, rng, tier, extra):
     res = Result()
     run_cases([gen(rng) for _ in range((3000 if tier == 'quick' else 80000) // nshards)], res)
+    run_array_cases([gen_array(rng) for _ in range((1500 if tier == 'quick' else 40000) // nshards)], res)
     indicator(rng, res, (400 if tier == 'quick' else 8000) // nshards)
     return res
 
@@ -102,4 +145,5 @@ def classify(fl): return None
 def replay(payload):
     res = Result(); c = payload['case']
     if 'c' in c: run_cases([c], res)
+    elif 'cs' in c: run_array_cases([c], res)
     return {'holds': not res.failures, 'failures': res.failures}
